@@ -35,10 +35,15 @@ var (
 	reRHelpers  = regexp.MustCompile(`\(\*decorator\.FileRestorer\)\.(applyDecorations|applySpace|addCommentField|applyLiteral)#`)
 	reRCursor   = regexp.MustCompile(`\(\*dstutil\.Cursor\)\.|^applyList#|\(\*dstutil\.application\)\.applyList#|^dstutil\.Apply#`)
 	reRGraph    = regexp.MustCompile(`\.(decorateObject|decorateScope|restoreObject|restoreScope)#|#graph:`)
+	reRSave     = regexp.MustCompile(`\(\*decorator\.Package\)\.save#`)
+	reRErrors   = regexp.MustCompile(`#errors:|error_returned_before|decorating_functions_never_store`)
 	reRDecList  = regexp.MustCompile(`\(\*dst\.Decorations\)\.(\w+)#`)
 )
 
 func replayFor(obligation string) *replaySpec {
+	if reRErrors.MatchString(obligation) {
+		return &replaySpec{"errors", "resolvers", "decorator", "decorator_test.go.part"}
+	}
 	if reRGraph.MatchString(obligation) {
 		return &replaySpec{"graph", "objects", "decorator", "decorator_test.go.part"}
 	}
@@ -56,6 +61,12 @@ func replayFor(obligation string) *replaySpec {
 	}
 	if reRGraph.MatchString(obligation) {
 		return &replaySpec{"graph", "objects", "decorator", "decorator_test.go.part"}
+	}
+	if reRSave.MatchString(obligation) {
+		return &replaySpec{"save", "save", "decorator", "decorator_test.go.part"}
+	}
+	if reRErrors.MatchString(obligation) {
+		return &replaySpec{"errors", "resolvers", "decorator", "decorator_test.go.part"}
 	}
 	if reRCursor.MatchString(obligation) {
 		return &replaySpec{"cursor", "apply", "dstutil", "dstutil_test.go.part"}
